@@ -10,18 +10,22 @@ CHECKS["C13"] = {
     "rule": ("rapid-generated (interval value via Interval.ValueOf, boundary-biased ms timestamp in 2015..2035) cases plus "
              "a walk over every family boundary of 2015..2035; TestPartition case non-trivial = timestamp within one interval "
              "of a family/segment boundary; TestRangeFamilies = range spans >= 2 families; TestPlannerInterval = planned range "
-             "spans >= 2 families or interval ratio > 1; distinct = (interval(s), timestamp(s)) hash"),
+             "spans >= 2 families or interval ratio > 1; TestEngineFamilies (real engine: Shard.GetOrCrateDataFamily / Shard.GetDataFamilies for day-, month- and year-type "
+             "intervals, families clustered around a boundary-biased anchor, ranges starting/ending in neighbouring families and segments) = some range overlaps >= 2 existing families; "
+             "distinct = (interval(s), timestamp(s)) hash"),
     "technique": "property-based testing (rapid) of the calculators and the planner against arithmetic invariants + exhaustive family-boundary walk",
     "level_text": ("Generated-input exploration: tens of thousands of boundary-biased (interval, timestamp) cases per run and a complete walk over "
                    "all family boundaries of 21 years check exactly the invariants the statement lists (containment, tiling, idempotence, slot bound, "
                    "planner multiple/alignment/cover). The functions are pure, so sampling + the exhaustive walk is the right level."),
-    "level_note": "Trusted: Go's time package as the calendar; TZ=UTC; window 2015..2035; engine-level family lookup is exercised by C11/C04 rather than here.",
+    "level_note": "Trusted: Go's time package as the calendar; TZ=UTC; window 2015..2035. The engine-level family lookup (TestEngineFamilies) goes through a real tsdb engine (sim/node).",
     "assumptions": ["TZ=UTC (time.Local); DST zones out of scope", "timestamps restricted to 2015-01-01..2035-12-31"],
     "tests": [
         {"name": "TestPartition", "quick": 20000, "thorough": {"checks": 200000, "shards": 8}},
         {"name": "TestRangeFamilies", "quick": 3000, "thorough": {"checks": 30000, "shards": 4}},
         {"name": "TestBoundaryWalk", "quick": {"short": True}, "thorough": {}},
         {"name": "TestPlannerInterval", "quick": 20000, "thorough": {"checks": 200000, "shards": 4}},
+        {"name": "TestEngineFamilies", "quick": 400, "thorough": {"checks": 3000, "shards": 4}},
+        {"name": "TestRegression_RangeStartingInPreviousMonth", "quick": {}, "thorough": {}},
     ],
 }
 
